@@ -43,6 +43,8 @@ package ivfwriter
 //@ field IVFWriter.videoWidth props C32 writers NewWith, WithWidthAndHeight$1
 //@ field IVFWriter.videoHeight props C32 writers NewWith, WithWidthAndHeight$1
 //@ field IVFWriter.count props C32 writers (*IVFWriter).writeFrame
+//@ field IVFWriter.clockRate props C32 writers NewWith
+//@ field IVFWriter.firstFrameTimestamp props C32 writers (*IVFWriter).WriteRTP
 //@ field IVFWriter.seenKeyFrame props C32 writers NewWith, (*IVFWriter).writeVP8, (*IVFWriter).writeVP9, (*IVFWriter).writeAV1
 
 // The 32-byte file header: signature, version 0, header size 32, the FourCC of the
@@ -91,8 +93,21 @@ package ivfwriter
 //@ func NewWith
 //@ props C32
 //@ nosafety
-//@ ensures err == nil ==> ret0 != nil && ret0.timebaseDenominator != 0
+//@ ensures err == nil ==> ret0 != nil && ret0.timebaseDenominator != 0 && ret0.clockRate == 90000
 //@ ensures err == nil ==> ret0.codec == codecVP8 || ret0.codec == codecVP9 || ret0.codec == codecAV1
+
+// WriteRTP: the time stamp handed to the per-codec writer is the RTP distance (modulo 2^32)
+// from the first packet seen while no frame had been written, used directly (direct mode)
+// or converted to milliseconds at the clock rate; nothing happens for an empty payload.
+//@ func (*IVFWriter).WriteRTP
+//@ props C32
+//@ nosafety
+//@ requires i != nil && packet != nil && i.clockRate != 0
+//@ atcall (*IVFWriter).writeVP8 assert callarg2 == ite(i.directPTS, uint64(packet.Timestamp - i.firstFrameTimestamp), 1000 * uint64(packet.Timestamp - i.firstFrameTimestamp) / i.clockRate) && (old(i.count) == 0 ==> i.firstFrameTimestamp == packet.Timestamp) && (old(i.count) != 0 ==> i.firstFrameTimestamp == old(i.firstFrameTimestamp)) && callarg1 == packet
+//@ atcall (*IVFWriter).writeVP9 assert callarg2 == ite(i.directPTS, uint64(packet.Timestamp - i.firstFrameTimestamp), 1000 * uint64(packet.Timestamp - i.firstFrameTimestamp) / i.clockRate) && (old(i.count) == 0 ==> i.firstFrameTimestamp == packet.Timestamp) && (old(i.count) != 0 ==> i.firstFrameTimestamp == old(i.firstFrameTimestamp)) && callarg1 == packet
+//@ atcall (*IVFWriter).writeAV1 assert callarg2 == ite(i.directPTS, uint64(packet.Timestamp - i.firstFrameTimestamp), 1000 * uint64(packet.Timestamp - i.firstFrameTimestamp) / i.clockRate) && (old(i.count) == 0 ==> i.firstFrameTimestamp == packet.Timestamp) && (old(i.count) != 0 ==> i.firstFrameTimestamp == old(i.firstFrameTimestamp)) && callarg1 == packet
+//@ ensures old(i.ioWriter) == nil ==> err != nil && i.count == old(i.count)
+//@ ensures old(i.ioWriter) != nil && old(len(packet.Payload)) == 0 ==> err == nil && i.count == old(i.count) && i.seenKeyFrame == old(i.seenKeyFrame) && i.firstFrameTimestamp == old(i.firstFrameTimestamp)
 
 // Close on a seekable output patches the frame count (32 bits, little endian) at offset 24.
 //@ func (*IVFWriter).Close
